@@ -2,7 +2,7 @@
  * usage: c11_replay <cases.txt> <out.ndjson> <function>
  *
  * cases.txt is the TLC output of spec/Kernels.tla (operands AND exact expected results, integers) rewritten by the
- * check as plain text:   <family> <r> <k> <c> <nin> <nout>   followed by nin+nout lines  <len> v1 .. vlen
+ * check as plain text:   <family> <seed> <r> <k> <c> <nin> <nout>   followed by nin+nout lines  <len> v1 .. vlen
  * Every case of the family that feeds <function> is run with the operands scaled by 2^e, e in {-20, 0, 20}
  * (exact in double), and the library's result is compared with the TLC value scaled accordingly:
  *   integer-valued results exactly; quotients (averages, variances, covariance) against num*2^(e*deg)/den
@@ -17,7 +17,7 @@
 #include <float.h>
 
 typedef struct { int len; long *v; } arr;
-typedef struct { char fam[32]; int r, k, c, nin, nout; arr in[8], out[8]; } kcase;
+typedef struct { char fam[32]; int sd, r, k, c, nin, nout; arr in[8], out[8]; } kcase;
 
 static const int EXPS[3] = { -20, 0, 20 };
 #define EPS DBL_EPSILON
@@ -28,7 +28,7 @@ static kcase *cur = NULL;
 static int cur_exp = 0;
 static void crash_line(void){
   if(vrt_out && cur){
-    fprintf(vrt_out, "{\"e\":\"Crash\",\"fn\":\"%s\",\"r\":%d,\"k\":%d,\"c\":%d,\"exp\":%d}\n", cur_fn, cur->r, cur->k, cur->c, cur_exp);
+    fprintf(vrt_out, "{\"e\":\"Crash\",\"fn\":\"%s\",\"sd\":%d,\"r\":%d,\"k\":%d,\"c\":%d,\"exp\":%d}\n", cur_fn, cur->sd, cur->r, cur->k, cur->c, cur_exp);
     fflush(vrt_out);
   }
 }
@@ -278,7 +278,7 @@ static void run_one(const char *fn, kcase *q, int e){
     /* back to integers: every cell of the result must be an input cell (exact multiple of 2^e in -5..5) */
     int exact = ((int)m->row == r && (int)m->col == c);
     static char buf[1 << 16]; int p = 0;
-    p += snprintf(buf + p, sizeof(buf) - p, "{\"e\":\"Sort\",\"fn\":\"%s\",\"exp\":%d,\"rev\":%d,\"key\":%d,\"rows\":%d,\"cols\":%d,\"m\":[", fn, e, rev, k, r, c);
+    p += snprintf(buf + p, sizeof(buf) - p, "{\"e\":\"Sort\",\"fn\":\"%s\",\"sd\":%d,\"exp\":%d,\"rev\":%d,\"key\":%d,\"rows\":%d,\"cols\":%d,\"m\":[", fn, q->sd, e, rev, k, r, c);
     for(int i = 0; i < r; i++){ p += snprintf(buf + p, sizeof(buf) - p, "%s[", i ? "," : ""); for(int j = 0; j < c; j++) p += snprintf(buf + p, sizeof(buf) - p, "%s%ld", j ? "," : "", q->in[0].v[i * c + j]); p += snprintf(buf + p, sizeof(buf) - p, "]"); }
     p += snprintf(buf + p, sizeof(buf) - p, "],\"res\":[");
     for(int i = 0; exact && i < r; i++){
@@ -334,7 +334,7 @@ int main(int argc, char **argv){
   vrt_force_nproc(1);
   kcase q; long ncases = 0;
   int issort = !strcmp(fam, "Sort");
-  while(fscanf(f, "%31s %d %d %d %d %d", q.fam, &q.r, &q.k, &q.c, &q.nin, &q.nout) == 6){
+  while(fscanf(f, "%31s %d %d %d %d %d %d", q.fam, &q.sd, &q.r, &q.k, &q.c, &q.nin, &q.nout) == 7){
     if(q.nin > 8 || q.nout > 8){ fprintf(stderr, "too many operand lists\n"); return 2; }
     for(int i = 0; i < q.nin; i++) if(!read_arr(f, &q.in[i])){ fprintf(stderr, "truncated case file\n"); return 2; }
     for(int i = 0; i < q.nout; i++) if(!read_arr(f, &q.out[i])){ fprintf(stderr, "truncated case file\n"); return 2; }
@@ -346,10 +346,10 @@ int main(int argc, char **argv){
       cur = NULL;
       if(!issort){
         if(mm.bad)
-          VRT_EMIT("{\"e\":\"Res\",\"fn\":\"%s\",\"r\":%d,\"k\":%d,\"c\":%d,\"ok\":0,\"scales\":%d,\"exp\":%d,\"at\":[%d,%d],\"got\":\"%.17g\",\"want\":\"%.17g\",\"what\":\"%s\"}",
-                   fn, q.r, q.k, q.c, mm.scales, mm.exp, mm.i, mm.j, mm.got, mm.want, mm.what);
+          VRT_EMIT("{\"e\":\"Res\",\"fn\":\"%s\",\"sd\":%d,\"r\":%d,\"k\":%d,\"c\":%d,\"ok\":0,\"scales\":%d,\"exp\":%d,\"at\":[%d,%d],\"got\":\"%.17g\",\"want\":\"%.17g\",\"what\":\"%s\"}",
+                   fn, q.sd, q.r, q.k, q.c, mm.scales, mm.exp, mm.i, mm.j, mm.got, mm.want, mm.what);
         else
-          VRT_EMIT("{\"e\":\"Res\",\"fn\":\"%s\",\"r\":%d,\"k\":%d,\"c\":%d,\"ok\":1%s}", fn, q.r, q.k, q.c, drift ? ",\"drift\":1" : "");
+          VRT_EMIT("{\"e\":\"Res\",\"fn\":\"%s\",\"sd\":%d,\"r\":%d,\"k\":%d,\"c\":%d,\"ok\":1%s}", fn, q.sd, q.r, q.k, q.c, drift ? ",\"drift\":1" : "");
       }
     }
     for(int i = 0; i < q.nin; i++) free(q.in[i].v);
